@@ -218,17 +218,19 @@ structure NumOps (α : Type) where
   lt : α → α → Bool
   eq : α → α → Bool
   add : α → α → α
-def floatOps : NumOps Float := ⟨fun a b => a < b, fun a b => a == b, fun a b => a + b⟩
-def intOps : NumOps Int := ⟨fun a b => a < b, fun a b => a == b, fun a b => a + b⟩
+  zero : α
+def floatOps : NumOps Float := ⟨fun a b => a < b, fun a b => a == b, fun a b => a + b, 0⟩
+def intOps : NumOps Int := ⟨fun a b => a < b, fun a b => a == b, fun a b => a + b, 0⟩
 
-/-- rangeFunc's end test: `cur` is beyond the (inclusive) end -/
-def rangeDone {α : Type} (o : NumOps α) (fr to cur : α) : Bool :=
-  (o.lt fr to && o.lt to cur) || (o.lt to fr && o.lt cur to) || (o.eq fr to && !o.eq cur fr)
+/-- rangeFunc's end test: `cur` is beyond the (inclusive) end; the direction is the sign of the step
+    (a step of 0 never ends unless the bounds are equal and `cur` has left them — it cannot) -/
+def rangeDone {α : Type} (o : NumOps α) (fr to step cur : α) : Bool :=
+  (o.lt o.zero step && o.lt to cur) || (o.lt step o.zero && o.lt cur to) || (o.eq fr to && !o.eq cur fr)
 
 /-- the values a range iterator delivers (`n` bounds the number of steps) -/
 def rangeVals {α : Type} (o : NumOps α) (fr to step : α) : Nat → α → List α
   | 0, _ => []
-  | n+1, cur => if rangeDone o fr to cur then [] else cur :: rangeVals o fr to step n (o.add cur step)
+  | n+1, cur => if rangeDone o fr to step cur then [] else cur :: rangeVals o fr to step n (o.add cur step)
 
 /-! ### nodes -/
 def tokOf (n : Node) : M Tok := match n.tok with | some t => pure t | none => throw Sig.panic
@@ -1370,7 +1372,7 @@ def runBuiltin : Nat → Nat → Node → String → List Val → M Val
       | some r =>
         let states' := states.map fun q => if q.line == t.line && q.col == t.col then { q with cur := floatOps.add q.cur q.step } else q
         set { st with isStore := st.isStore.setIfInBounds st.curIs states' }
-        if rangeDone floatOps r.fr r.to r.cur then
+        if rangeDone floatOps r.fr r.to r.step r.cur then
           throw (plain tBreak)
         else throw (Sig.iter mkErr r.cur)
       | none =>
